@@ -295,6 +295,41 @@ func SoftNest(opts []cat.Opts, cb bool) []*cat.Catalog {
 	return out
 }
 
+// IfaceGroups is the group motif over a group of *interfaces*: c1 feeds one member (a concrete
+// value under I0) and provides T3, c2 flattens a slice of I0 of length 1 or 2 whose first member
+// may be a nil interface (a member like any other), placed anywhere with Export; a consumer
+// constructor, an optional decorator of the group, Invokes of the group and of the consumer.
+func IfaceGroups(opts []cat.Opts, cb bool) []*cat.Catalog {
+	var out []*cat.Catalog
+	grp := func(k string) cat.Result { return cat.Result{Ks: []string{k}, M: "grp"} }
+	for _, p2 := range places() {
+		for n := 1; n <= 2; n++ {
+			for _, nilFirst := range []bool{false, true} {
+				for dv := 0; dv < 2; dv++ {
+					c := &cat.Catalog{Parent: copyTree(chainTree), Fns: map[string]*cat.Fn{}}
+					c.Fns["c1"] = ctor(Place{"r", false}, nil, grp("I0@g"), one("T3"))
+					c.Fns["c2"] = ctor(p2, nil, cat.Result{Ks: []string{"I0@g"}, M: "flat", N: n})
+					c.Fns["c3"] = ctor(Place{"a", false}, []cat.Param{par("I0@g", "grp", 1), par("T3", "opt", 1)}, one("T1"))
+					c.Fns["i1"] = inv(par("T1", "req", 0))
+					c.Fns["i2"] = inv(par("I0@g", "grp", 1))
+					if dv == 1 {
+						c.Fns["d1"] = dec("r", []cat.Param{par("I0@g", "grp", 1)}, cat.Result{Ks: []string{"I0@g"}, M: "grp", N: 1, O: 1})
+					}
+					c.Order = [][]string{{"c1", "c2", "c3"}, {"c2", "c3", "c1"}, {"c3", "c1", "c2"}}[(n+dv)%3]
+					c.Note = fmt.Sprintf("ifacegroups c2=%v n=%d nil=%v dec=%d", p2, n, nilFirst, dv)
+					finish(c, opts, cb)
+					for _, f := range c.Fns {
+						f.Enc.NilRes = false
+					}
+					c.Fns["c2"].Enc.NilRes = nilFirst
+					out = append(out, c)
+				}
+			}
+		}
+	}
+	return out
+}
+
 // DecPairs is the motif of two decorators meeting: every pair of decorators over the keys T0,
 // T2 (the element type of the group, as a single value), T2@g and T2@h, both in one scope or one
 // above the other, over a constructor feeding both groups and providing T0 and T2. A scope takes
